@@ -174,3 +174,50 @@ def run_batch(laze, driver, cases, threads=None, workers=None):
         dis, impl, tags = compare(m, raw)
         out.append(dict(files=f, cli=c, model=m, impl_raw=raw, impl=impl, dis=dis, tags=tags, request=rq, reply=rep))
     return out
+
+
+FAKE_NINJA = """#!/bin/sh
+# fake ninja: log argv (one line per invocation, args separated by \\x1f), exit with the scripted code
+printf '%s' "$*" | tr ' ' '\037' >> "$LAZE_VERIF_NINJA_LOG"
+echo >> "$LAZE_VERIF_NINJA_LOG"
+exit ${LAZE_VERIF_NINJA_RC:-0}
+"""
+
+def run_sequence(laze, files, steps, threads=None):
+    """Several laze runs in ONE project directory (build dir and cache kept between steps).
+    step: dict(cli=..., args=[extra argv], edit=callable(root) or None, generate_only=True, ninja_rc=0, env={})
+    returns list of dict(rc, stdout, stderr, ninja(bytes|None), ninja_argv([[..]]), cache_hit(bool))"""
+    tmp = tempfile.mkdtemp(prefix=SCRATCH_PREFIX)
+    root = os.path.join(tmp, "p")
+    out = []
+    try:
+        proj.render(files, root)
+        bindir = os.path.join(tmp, "bin"); os.makedirs(bindir)
+        nj = os.path.join(bindir, "ninja"); open(nj, "w").write(FAKE_NINJA); os.chmod(nj, 0o755)
+        for st in steps:
+            if st.get("edit"): st["edit"](root)
+            c = st.get("cli", {})
+            start = os.path.join(root, c["local"]) if c.get("local") not in (None, ".") else root
+            args = [laze, "-C", start, "build"] + ([] if c.get("local") is not None else ["-g"])
+            if st.get("generate_only", True): args.append("-G")
+            args += proj.argv(c) + st.get("args", [])
+            log = os.path.join(tmp, "ninja.log")
+            if os.path.exists(log): os.remove(log)
+            env = clean_env(tmp, threads)
+            env.update(PATH=bindir + ":" + env.get("PATH", ""), LAZE_VERIF_NINJA_LOG=log, LAZE_VERIF_NINJA_RC=str(st.get("ninja_rc", 0)))
+            env.update(st.get("env", {}))
+            try:
+                p = subprocess.run(args, env=env, capture_output=True, timeout=60)
+                rc, so, se = p.returncode, p.stdout.decode("utf-8", "replace"), p.stderr.decode("utf-8", "replace")
+            except subprocess.TimeoutExpired:
+                rc, so, se = "timeout", "", ""
+            nf = os.path.join(root, "build", "build-local.ninja" if c.get("local") is not None else "build-global.ninja")
+            ninja = open(nf, "rb").read() if os.path.exists(nf) else None
+            argvs = []
+            if os.path.exists(log):
+                argvs = [ln.split("\x1f") if ln else [] for ln in open(log).read().split("\n")[:-1]]
+            out.append(dict(rc=rc, stdout=so, stderr=se, ninja=ninja, ninja_argv=argvs, root=root,
+                            cache_hit=("laze: reading cache took" in so), argv=args[1:]))
+        return out
+    finally:
+        shutil.rmtree(tmp, ignore_errors=True)
